@@ -482,6 +482,33 @@ func (g *gctx) enc(k key, variant int, msg, rho []byte, what string, otherMode b
 	return ct
 }
 
+// encOnly: the conformance case alone (no follow-up decryptions)
+func (g *gctx) encOnly(k key, variant int, msg, rho []byte, what string) {
+	what = fmt.Sprintf("key %s |M|=%d |rho|=%d %s", k.name, len(msg), len(rho), what)
+	if variant == varEA {
+		g.emit("honest", what, fmt.Sprintf("EA %d %s %s %s %s", g.next(), zs(k.x), zs(k.y), hx.Hex(msg), hx.Hex(rho)))
+	} else {
+		g.emit("honest", fmt.Sprintf("mode %d %s", variant, what), fmt.Sprintf("E %d %s %s %d %s %s", g.next(), zs(k.x), zs(k.y), variant, hx.Hex(msg), hx.Hex(rho)))
+	}
+}
+
+// sparse scalars: 2^e, 2^e +- 1, 3*2^e for e in {0,1,63,64,127,128,129,200,254,255}, reduced mod n, non-zero, distinct
+func sparseScalars() []*big.Int {
+	seen := map[string]bool{}
+	var out []*big.Int
+	for _, e := range []uint{0, 1, 63, 64, 127, 128, 129, 200, 254, 255} {
+		p2 := new(big.Int).Lsh(big1, e)
+		for _, v := range []*big.Int{p2, new(big.Int).Add(p2, big1), new(big.Int).Sub(p2, big1), new(big.Int).Mul(p2, big.NewInt(3))} {
+			w := new(big.Int).Mod(v, curveN)
+			if w.Sign() != 0 && !seen[w.String()] {
+				seen[w.String()] = true
+				out = append(out, w)
+			}
+		}
+	}
+	return out
+}
+
 func (g *gctx) randKey() key { return g.keys[g.r.Intn(len(g.keys))] }
 
 func (g *gctx) randRho() []byte {
@@ -1084,6 +1111,23 @@ func gen(seed uint64, tier string, o *hx.Out) {
 				}
 				g.enc(g.randKey(), form, g.msgOf(32*k+off), g.randRho(), fmt.Sprintf("KDF block boundary 32*%d%+d", k, off), some())
 			}
+		}
+	}
+
+	// ---- A3. every residue of |M| mod 64 (C3 = SM3(x2 || M || y2) hashes 64 + |M| bytes, KDF input 68 bytes): all lengths
+	// 41..200 once (0..40 are above), the form rotating from a seed-dependent start; conformance case only
+	rotR := g.r.Intn(4)
+	for n := 41; n <= 200; n++ {
+		g.encOnly(g.randKey(), forms[(n+rotR)%4], g.msgOf(n), g.randRho(), "length residue sweep")
+	}
+
+	// ---- A4. sparse scalars (long runs of zero digits in the recodings): as the nonce k (conformance: [k]G and [k]P) and
+	// as the private key d (round trip: [d]C1), every value once, forms rotating
+	for i, v := range sparseScalars() {
+		msg := g.msgOf(1 + g.r.Intn(70))
+		g.encOnly(g.randKey(), forms[(i+rotR)%4], msg, rhoFor(v, 0), "sparse nonce k = "+zs(v))
+		if v.Cmp(new(big.Int).Sub(curveN, big1)) < 0 {
+			g.enc(mkKey("d-sparse-"+zs(v), v), []int{0, 1, varEA}[i%3], msg, g.randRho(), "sparse private key", false)
 		}
 	}
 
